@@ -7,12 +7,28 @@ namespace MdVerif.Instance
 
 variable {Cfg F L Doc O : Type} (M : Machine Cfg F L Doc O)
 
-/-- the part of an instance that `reset` does not re-initialise -/
+/-! ### `reset` gives the fresh instance -/
+
+/-- by definition: `reset` keeps nothing but the configuration -/
+theorem reset_eq_fresh (x : Inst Cfg F L) : reset M x = fresh M x.cfg := rfl
+
+theorem cfg_applyEv (x : Inst Cfg F L) (e : Ev Doc) : (applyEv M x e).cfg = x.cfg := by
+  cases e <;> rfl
+
+/-- the configuration never changes -/
+theorem cfg_runHistory (h : List (Ev Doc)) (x : Inst Cfg F L) : (runHistory M x h).cfg = x.cfg := by
+  induction h generalizing x with
+  | nil => rfl
+  | cons e h ih => simp only [runHistory, ih, cfg_applyEv]
+
+/-! ### the leak is balanced (used for conversions without `reset()`, and for the pre-repair `resetOld`) -/
+
+/-- configuration `c`, empty nesting state -/
 def Clean (c : Cfg) (x : Inst Cfg F L) : Prop := x.cfg = c ∧ x.leak = M.leak0
 
 theorem clean_fresh (c : Cfg) : Clean M c (fresh M c) := ⟨rfl, rfl⟩
 
-theorem clean_reset {c : Cfg} {x : Inst Cfg F L} (h : Clean M c x) : Clean M c (reset M x) := h
+theorem clean_reset {c : Cfg} {x : Inst Cfg F L} (h : Clean M c x) : Clean M c (reset M x) := ⟨h.1, rfl⟩
 
 theorem clean_conv (hb : Balanced M) {c : Cfg} {x : Inst Cfg F L} (h : Clean M c x) (d : Doc)
     (hok : (conv M x d).2.isOk = true) : Clean M c (conv M x d).1 := by
@@ -25,7 +41,7 @@ theorem clean_conv (hb : Balanced M) {c : Cfg} {x : Inst Cfg F L} (h : Clean M c
       (by rw [← hr])
     rw [this]; exact h.2
 
-/-- a history without a raising conversion keeps the instance clean -/
+/-- a history without a raising conversion keeps the nesting state empty -/
 theorem clean_runHistory (hb : Balanced M) {c : Cfg} (h : List (Ev Doc)) (x : Inst Cfg F L) (hx : Clean M c x)
     (hn : NoRaise M x h) : Clean M c (runHistory M x h) := by
   induction h generalizing x with
@@ -35,12 +51,12 @@ theorem clean_runHistory (hb : Balanced M) {c : Cfg} (h : List (Ev Doc)) (x : In
     | convert d => exact ih _ (clean_conv M hb hx d hn.1) hn.2
     | reset => exact ih _ (clean_reset M hx) hn
 
-/-- a clean instance, once reset, *is* the fresh instance -/
-theorem reset_of_clean {c : Cfg} {x : Inst Cfg F L} (hx : Clean M c x) : reset M x = fresh M c := by
+/-- on an instance with an empty nesting state the old `reset` did what the new one does -/
+theorem resetOld_of_clean {c : Cfg} {x : Inst Cfg F L} (hx : Clean M c x) : resetOld M x = reset M x := by
   obtain ⟨cfg, fields, leak⟩ := x
-  obtain ⟨h1, h2⟩ := hx
-  simp only at h1 h2
-  subst h1 h2
+  obtain ⟨_, h2⟩ := hx
+  simp only at h2
+  subst h2
   rfl
 
 /-! ### several instances -/
